@@ -158,6 +158,21 @@ func init() {
 		_, err := font.InstallTrueTypeFont(e.FontDir, f[0])
 		return err
 	})
+	// installs from memory (the quiet variant is what pdfcpu uses to bootstrap its bundled font)
+	fontOp("font-bytes", []fontInput{{file: "A.ttf", names: []byte{'A'}}}, []byte{'A'}, false, func(e *Env, f []string) error {
+		b, err := os.ReadFile(f[0])
+		if err != nil {
+			return err
+		}
+		return font.InstallFontFromBytes(e.FontDir, gen.FontName('A'), b)
+	})
+	fontOp("font-bytes-quiet", []fontInput{{file: "A.ttf", names: []byte{'A'}}}, []byte{'A'}, false, func(e *Env, f []string) error {
+		b, err := os.ReadFile(f[0])
+		if err != nil {
+			return err
+		}
+		return font.InstallFontFromBytesQuiet(e.FontDir, gen.FontName('A'), b)
+	})
 	fontOp("font-ttc", []fontInput{{file: "BC.ttc", names: []byte{'B', 'C'}}}, []byte{'B', 'C'}, false, func(e *Env, f []string) error {
 		_, err := font.InstallTrueTypeCollection(e.FontDir, f[0])
 		return err
